@@ -53,7 +53,12 @@ def check_state(run: ir.MgRun, ref: ir.RefRun, objs, consts, after, touched=None
                 if t.base is not None:
                     return Mismatch("base", f"after stmt {after}: h{h} aliases owner h{o} but .base is not None")
             else:
-                if t.base is not run.env.get(o):
+                ot = run.env.get(o)
+                want_base = ot
+                if ot is not None and ot.base is not None and not any(ot.base is v for v in run.env.values()) \
+                        and ot.base.base is None and np.shares_memory(ot.data, ot.base.data):
+                    want_base = ot.base  # (the visible "owner" is itself a view of a hidden intermediate, see above)
+                if t.base is not want_base:
                     return Mismatch("base", f"after stmt {after}: h{h}.base is not the owner tensor h{o} "
                                             f"(base is {'None' if t.base is None else 'another tensor'})", h=h)
     for i, h1 in enumerate(hs):
